@@ -131,3 +131,40 @@ contract("C09.validate_placeholders", file=D, func="DefinitionDict._validate_pla
              "all(implies(" + NH + "(_iter0[k]) > 0, is_in(_iter0[k], placeholder_tags)) for k in range(_n))",
              "(len(tags_with_issues) > 0) == any(" + NH + "(_iter0[k]) > 1 for k in range(_n))",
          ]}})
+
+# C09 "expanding replaces each Def by its Def-expand group ... shrinking restores the original" under EVERY schema configuration: the
+# Def <-> Def-expand switch re-identifies the tag by name in the schema the tag belongs to, under the tag's OWN namespace prefix (a look-up
+# without the prefix finds nothing in a schema loaded under a prefix, and the tag silently loses its entry)
+from pyvc.contract import EXTERNS as _EX09
+try:
+    import z3 as _z09
+    from pyvc.vals import SV as _SV09, TOpt as _TOpt09, TRef as _TRef09, BOOL as _B09, sort_of as _so09
+
+    def _named_entry(interp, args, kwargs):
+        """uninterpreted function of (schema, name, prefix): what the schema's get_tag_entry answers"""
+        ty = _TOpt09(_TRef09("TagEntry"))
+        fn = _z09.Function("named_entry", _z09.IntSort(), _z09.StringSort(), _z09.StringSort(), _so09(ty))
+        sch = args[0]
+        ref = _so09(sch.ty).val(sch.t) if sch.ty.name == "Opt" else sch.t      # (an Opt[...] schema: the clause guards 'is not None')
+        return _SV09(ty, fn(ref, interp.ctx.strs.to_native(args[1]), interp.ctx.strs.to_native(args[2])))
+    _EX09["named_entry"] = _named_entry
+    _EX09["takes_value_view"] = lambda interp, args, kwargs: _SV09(_B09, _z09.Function("takes_value_view", _z09.IntSort(), _z09.BoolSort())(args[0].t))
+    _EX09["HedTagIdent.is_takes_value_tag"] = _EX09["takes_value_view"]
+except ImportError:
+    pass
+contract("C09.schema_get_tag_entry", file="hed/schema/hed_schema.py", func="HedSchema.get_tag_entry",
+         params={"self": "SchemaAny", "name": "Str", "key_class": "Opaque", "schema_namespace": "Str"}, returns="Opt[TagEntry]",
+         enc="native", trusted=True, self_class="SchemaAny",
+         ensures={"named": "result == named_entry(self, name, schema_namespace)"},
+         assume=["get_tag_entry of a schema or schema group is a deterministic function of (schema, name, prefix) - its rule is C13.*get_tag_entry"])
+contract("C09.base_tag_switch_keeps_the_namespace", file="hed/models/hed_tag.py", func="HedTag.short_base_tag#1",
+         params={"self": "HedTagIdent", "new_tag_val": "Str"}, returns=None, enc="native", self_class="HedTagIdent", also=["C13"],
+         modifies=["self._schema_entry"],
+         raises={"ValueError": "self._schema_entry is None"},
+         ensures={
+             "C09.switch.entry_asked_under_the_tags_own_prefix":
+                 "implies(self._schema is not None, self._schema_entry == named_entry(self._schema,"
+                 " new_tag_val + '/#' if takes_value_view(self) else new_tag_val, self.schema_namespace))",
+             "C09.switch.no_schema_no_entry": "implies(self._schema is None, self._schema_entry is None)",
+         },
+         assume=["a TagEntry is truthy (HedSchemaEntry defines neither __bool__ nor __len__)"])
